@@ -93,4 +93,489 @@ theorem DecodeUInt64_refines (fuel : Nat) (hf : 11 ≤ fuel) (p : Bytes) (off mo
         | err => simp [elVarint, nz, hmm]; exact ⟨_, _, _, ⟨⟨rfl, rfl⟩, rfl⟩, by simp⟩
         | panic => exact absurd hmm (decodeVarint_ok _).1
 
+theorem toI64_toNat (v : BitVec 64) : toI64 v.toNat = v.toInt := by
+  have := v.isLt
+  unfold toI64 two64 two63
+  rw [Nat.mod_eq_of_lt (by omega), BitVec.toInt_eq_toNat_cond]
+  by_cases h : v.toNat < 9223372036854775808
+  · have : 2 * v.toNat < 2 ^ 64 := by omega
+    simp [h, this]
+  · have : ¬ 2 * v.toNat < 2 ^ 64 := by omega
+    simp [h, this]
+
+/-- **`(*Decoder).DecodeInt64` of the source refines `Dec.step .int64`** -/
+theorem DecodeInt64_refines (fuel : Nat) (hf : 11 ≤ fuel) (p : Bytes) (off mode ks ke : BitVec 64) (fast : Bool)
+    (hp : p.length < 2 ^ 63) (hoff : off.toNat ≤ p.length) :
+    ∃ v e s, Decoder_DecodeInt64 fuel p off mode ks ke = .ret (v, e) s ∧
+      s.d_p = p ∧ s.d_mode = mode ∧ s.d_keyStart = ks ∧ s.d_keyEnd = ke ∧
+      (match ((decOf p off ks ke fast).step .int64) with
+       | (d', .ok (.int x), _) => e = .nil ∧ v.toInt = x ∧ s.d_offset.toNat = d'.off
+       | (_, .err, _) => e ≠ .nil ∧ s.d_offset = off
+       | _ => False) := by
+  unfold Decoder_DecodeInt64 Decoder_DecodeInt64.body
+  simp only [Go.seq, Go.skip, eof_test p off hp hoff, Dec.step, withAlloc, Dec.scalar, decOf, Dec.len, sliceFrom]
+  by_cases heof : p.length ≤ off.toNat
+  · simp [heof]
+    exact ⟨_, _, _, ⟨⟨rfl, rfl⟩, rfl⟩, by simp⟩
+  · obtain ⟨v, n, e, c, hd, hcase⟩ := call_varint fuel hf (p.drop off.toNat) (drop_len p _ hp)
+    simp only [heof, decide_false, Bool.false_eq_true, if_false, hoff, if_true, hd, ge_iff_le]
+    rcases hcase with ⟨he, hm, hpos, hle⟩ | ⟨he, hm⟩
+    · subst he
+      have hn0 : ¬ n.toNat = 0 := by omega
+      have hlen : (p.drop off.toNat).length = p.length - off.toNat := by simp
+      have hsum : (off + n).toNat = off.toNat + n.toNat := add_toNat off n (by omega)
+      simp [elInt64, Res.map, elVarint, nz, hm, hn0, n_zero_iff, hsum]
+      exact ⟨_, _, _, ⟨⟨rfl, rfl⟩, rfl⟩, by simp [hsum, toI64_toNat]⟩
+    · cases e with
+      | nil => exact absurd rfl he
+      | invalidVarint | unexpectedEOF | overflow | other w =>
+        cases hmm : decodeVarint (p.drop off.toNat) with
+        | ok r => exact absurd hmm (hm r)
+        | err => simp [elInt64, Res.map, elVarint, nz, hmm]; exact ⟨_, _, _, ⟨⟨rfl, rfl⟩, rfl⟩, by simp⟩
+        | panic => exact absurd hmm (decodeVarint_ok _).1
+
+theorem ult_max32 (v : BitVec 64) : BitVec.ult 4294967295#64 v = decide (4294967295 < v.toNat) := by
+  simp [BitVec.ult]
+
+/-- **`(*Decoder).DecodeUInt32` of the source refines `Dec.step .uint32`** (values above 2^32-1 are an error, the cursor stays) -/
+theorem DecodeUInt32_refines (fuel : Nat) (hf : 11 ≤ fuel) (p : Bytes) (off mode ks ke : BitVec 64) (fast : Bool)
+    (hp : p.length < 2 ^ 63) (hoff : off.toNat ≤ p.length) :
+    ∃ v e s, Decoder_DecodeUInt32 fuel p off mode ks ke = .ret (v, e) s ∧
+      s.d_p = p ∧ s.d_mode = mode ∧ s.d_keyStart = ks ∧ s.d_keyEnd = ke ∧
+      (match ((decOf p off ks ke fast).step .uint32) with
+       | (d', .ok (.nat x), _) => e = .nil ∧ v.toNat = x ∧ s.d_offset.toNat = d'.off
+       | (_, .err, _) => e ≠ .nil ∧ s.d_offset = off
+       | _ => False) := by
+  unfold Decoder_DecodeUInt32 Decoder_DecodeUInt32.body
+  simp only [Go.seq, Go.skip, eof_test p off hp hoff, Dec.step, withAlloc, Dec.scalar, decOf, Dec.len, sliceFrom]
+  by_cases heof : p.length ≤ off.toNat
+  · simp [heof]
+    exact ⟨_, _, _, ⟨⟨rfl, rfl⟩, rfl⟩, by simp⟩
+  · obtain ⟨v, n, e, c, hd, hcase⟩ := call_varint fuel hf (p.drop off.toNat) (drop_len p _ hp)
+    simp only [heof, decide_false, Bool.false_eq_true, if_false, hoff, if_true, hd, ge_iff_le]
+    rcases hcase with ⟨he, hm, hpos, hle⟩ | ⟨he, hm⟩
+    · subst he
+      have hn0 : ¬ n.toNat = 0 := by omega
+      have hlen : (p.drop off.toNat).length = p.length - off.toNat := by simp
+      have hsum : (off + n).toNat = off.toNat + n.toNat := add_toNat off n (by omega)
+      by_cases hbig : 4294967295 < v.toNat
+      · simp [elUint32, elVarint, nz, hm, hn0, n_zero_iff, hsum, ult_max32, hbig]
+        exact ⟨_, _, _, ⟨⟨rfl, rfl⟩, rfl⟩, by simp⟩
+      · have hmod : v.toNat % 4294967296 = v.toNat := Nat.mod_eq_of_lt (by omega)
+        simp [elUint32, elVarint, nz, hm, hn0, n_zero_iff, hsum, ult_max32, hbig]
+        exact ⟨_, _, _, ⟨⟨rfl, rfl⟩, rfl⟩, by simp [hsum, hmod]⟩
+    · cases e with
+      | nil => exact absurd rfl he
+      | invalidVarint | unexpectedEOF | overflow | other w =>
+        cases hmm : decodeVarint (p.drop off.toNat) with
+        | ok r => exact absurd hmm (hm r)
+        | err => simp [elUint32, elVarint, nz, hmm]; exact ⟨_, _, _, ⟨⟨rfl, rfl⟩, rfl⟩, by simp⟩
+        | panic => exact absurd hmm (decodeVarint_ok _).1
+
+theorem slt_one (n : BitVec 64) (hn : n.toNat < 2 ^ 63) : BitVec.slt n 1#64 = decide (n.toNat < 1) := by
+  have h := slt_ofNat n.toNat 1 hn (by omega)
+  rw [← off_eq n] at h
+  exact h
+
+theorem ult_one (v : BitVec 64) : BitVec.ult v 1#64 = decide (v.toNat < 1) := by simp [BitVec.ult]
+
+theorem ult_maxTag (x : BitVec 64) : BitVec.ult 536870911#64 x = decide (maxTagValue < x.toNat) := by
+  unfold maxTagValue; simp [BitVec.ult]
+
+/-- **`(*Decoder).DecodeTag` of the source refines `Dec.step .tag`**: acceptance (a key below 1, a field number above
+    2^29-1 and a malformed varint are errors that leave cursor and key span alone), field number, wire type, the new
+    cursor and the recorded key span `[keyStart, keyEnd)`. -/
+theorem DecodeTag_refines (fuel : Nat) (hf : 11 ≤ fuel) (p : Bytes) (off mode ks ke : BitVec 64) (fast : Bool)
+    (hp : p.length < 2 ^ 63) (hoff : off.toNat ≤ p.length) :
+    ∃ t w e s, Decoder_DecodeTag fuel p off mode ks ke = .ret (t, w, e) s ∧ s.d_p = p ∧ s.d_mode = mode ∧
+      (match ((decOf p off ks ke fast).step .tag) with
+       | (d', .ok (.tag a b), _) => e = .nil ∧ t.toNat = a ∧ w.toNat = b ∧ s.d_offset.toNat = d'.off ∧
+            s.d_keyStart.toNat = d'.ks ∧ s.d_keyEnd.toNat = d'.ke
+       | (_, .err, _) => e ≠ .nil ∧ s.d_offset = off ∧ s.d_keyStart = ks ∧ s.d_keyEnd = ke
+       | _ => False) := by
+  unfold Decoder_DecodeTag Decoder_DecodeTag.body
+  simp only [Go.seq, Go.skip, eof_test p off hp hoff, Dec.step, decOf, Dec.len, sliceFrom]
+  by_cases heof : p.length ≤ off.toNat
+  · simp [heof]
+    exact ⟨_, _, _, _, ⟨⟨rfl, rfl, rfl⟩, rfl⟩, by simp⟩
+  · obtain ⟨v, n, e, c, hd, hcase⟩ := call_varint fuel hf (p.drop off.toNat) (drop_len p _ hp)
+    simp only [heof, decide_false, Bool.false_eq_true, if_false, hoff, if_true, hd, ge_iff_le]
+    rcases hcase with ⟨he, hm, hpos, hle⟩ | ⟨he, hm⟩
+    · subst he
+      have hlen : (p.drop off.toNat).length = p.length - off.toNat := by simp
+      have hsum : (off + n).toNat = off.toNat + n.toNat := add_toNat off n (by omega)
+      have hn1 : ¬ n.toNat < 1 := by omega
+      have hshr : (v >>> 3).toNat = v.toNat >>> 3 := by simp [BitVec.toNat_ushiftRight]
+      have hslt : n.slt 1#64 = false := by rw [slt_one n (by omega)]; simp; omega
+      by_cases hbad : v.toNat = 0 ∨ maxTagValue < v.toNat >>> 3
+      · simp [hm, hslt, hbad, ult_one, ult_maxTag, hshr, hn1]
+        exact ⟨_, _, _, _, ⟨⟨rfl, rfl, rfl⟩, rfl⟩, by simp⟩
+      · simp [hm, hslt, hbad, ult_one, ult_maxTag, hshr, hn1]
+        exact ⟨_, _, _, _, ⟨⟨rfl, rfl, rfl⟩, rfl⟩, by simp [hsum, hshr]⟩
+    · cases e with
+      | nil => exact absurd rfl he
+      | invalidVarint | unexpectedEOF | overflow | other w =>
+        cases hmm : decodeVarint (p.drop off.toNat) with
+        | ok r => exact absurd hmm (hm r)
+        | err => simp [hmm]; exact ⟨_, _, _, _, ⟨⟨rfl, rfl, rfl⟩, rfl⟩, by simp⟩
+        | panic => exact absurd hmm (decodeVarint_ok _).1
+
+/-- `Offset()` returns the cursor and changes nothing; `Reset()` moves the cursor to 0 and changes nothing else -/
+theorem Offset_refines (fuel : Nat) (p : Bytes) (off mode ks ke : BitVec 64) :
+    Decoder_Offset fuel p off mode ks ke =
+      .ret off { d_p := p, d_offset := off, d_mode := mode, d_keyStart := ks, d_keyEnd := ke } := rfl
+
+theorem Reset_refines (fuel : Nat) (p : Bytes) (off mode ks ke : BitVec 64) :
+    Decoder_Reset fuel p off mode ks ke =
+      .ret () { d_p := p, d_offset := 0#64, d_mode := mode, d_keyStart := ks, d_keyEnd := ke } := rfl
+
+/-! ### zig-zag and fixed-width methods -/
+
+theorem call_zigzag64 (fuel : Nat) (hf : 11 ≤ fuel) (q : Bytes) (hq : q.length < 2 ^ 63) :
+    ∃ v n e c, DecodeZigZag64 fuel q = .ret (v, n, e) c ∧
+      ((e = .nil ∧ decodeZigZag64 q = .ok (v.toInt, n.toNat) ∧ 0 < n.toNat ∧ n.toNat ≤ q.length) ∨
+       (e ≠ .nil ∧ ∀ r, decodeZigZag64 q ≠ .ok r)) := by
+  have h := DecodeZigZag64_eq fuel hf q hq
+  have hnp : decodeZigZag64 q ≠ .panic := by
+    unfold decodeZigZag64
+    cases hm : decodeVarint q with
+    | ok r => obtain ⟨a, b⟩ := r; simp; split <;> simp
+    | err => simp
+    | panic => exact absurd hm (decodeVarint_ok _).1
+  have hbound : ∀ x k, decodeZigZag64 q = .ok (x, k) → 0 < k ∧ k ≤ q.length := by
+    intro x k hk
+    unfold decodeZigZag64 at hk
+    cases hm : decodeVarint q with
+    | ok r =>
+      obtain ⟨a, b⟩ := r
+      rw [hm] at hk; simp at hk
+      split at hk
+      · simp at hk
+      · simp at hk; obtain ⟨_, hb⟩ := hk; subst hb
+        exact ⟨decodeVarint_pos hm, (decodeVarint_ok q).2 _ _ hm⟩
+    | err => rw [hm] at hk; simp at hk
+    | panic => rw [hm] at hk; simp at hk
+  cases hd : DecodeZigZag64 fuel q with
+  | ret r c =>
+    obtain ⟨v, n, e⟩ := r
+    refine ⟨v, n, e, c, rfl, ?_⟩
+    rw [hd] at h
+    cases e with
+    | nil =>
+      left
+      simp only [toResZ64] at h
+      cases hm : decodeZigZag64 q with
+      | ok r => rw [hm] at h; simp only [Res.ok.injEq] at h; subst h; exact ⟨rfl, rfl, hbound _ _ hm⟩
+      | err => rw [hm] at h; simp at h
+      | panic => exact absurd hm hnp
+    | invalidVarint | unexpectedEOF | overflow | other w =>
+      right
+      simp only [toResZ64] at h
+      refine ⟨by simp, ?_⟩
+      intro r hr; rw [hr] at h; simp at h
+  | next s => rw [hd] at h; simp only [toResZ64] at h; cases hm : decodeZigZag64 q <;> rw [hm] at h <;> simp at h
+  | panic => rw [hd] at h; simp only [toResZ64] at h; cases hm : decodeZigZag64 q <;> rw [hm] at h <;> simp at h
+  | diverge => rw [hd] at h; simp only [toResZ64] at h; cases hm : decodeZigZag64 q <;> rw [hm] at h <;> simp at h
+
+/-- **`(*Decoder).DecodeSInt64` of the source refines `Dec.step .sint64`** -/
+theorem DecodeSInt64_refines (fuel : Nat) (hf : 11 ≤ fuel) (p : Bytes) (off mode ks ke : BitVec 64) (fast : Bool)
+    (hp : p.length < 2 ^ 63) (hoff : off.toNat ≤ p.length) :
+    ∃ v e s, Decoder_DecodeSInt64 fuel p off mode ks ke = .ret (v, e) s ∧
+      s.d_p = p ∧ s.d_mode = mode ∧ s.d_keyStart = ks ∧ s.d_keyEnd = ke ∧
+      (match ((decOf p off ks ke fast).step .sint64) with
+       | (d', .ok (.int x), _) => e = .nil ∧ v.toInt = x ∧ s.d_offset.toNat = d'.off
+       | (_, .err, _) => e ≠ .nil ∧ s.d_offset = off
+       | _ => False) := by
+  unfold Decoder_DecodeSInt64 Decoder_DecodeSInt64.body
+  simp only [Go.seq, Go.skip, eof_test p off hp hoff, Dec.step, withAlloc, Dec.scalar, decOf, Dec.len, sliceFrom]
+  by_cases heof : p.length ≤ off.toNat
+  · simp [heof]
+    exact ⟨_, _, _, ⟨⟨rfl, rfl⟩, rfl⟩, by simp⟩
+  · obtain ⟨v, n, e, c, hd, hcase⟩ := call_zigzag64 fuel hf (p.drop off.toNat) (drop_len p _ hp)
+    simp only [heof, decide_false, Bool.false_eq_true, if_false, hoff, if_true, hd, ge_iff_le]
+    rcases hcase with ⟨he, hm, hpos, hle⟩ | ⟨he, hm⟩
+    · subst he
+      have hn0 : ¬ n.toNat = 0 := by omega
+      have hlen : (p.drop off.toNat).length = p.length - off.toNat := by simp
+      have hsum : (off + n).toNat = off.toNat + n.toNat := add_toNat off n (by omega)
+      simp [elSint64, nz, hm, hn0, n_zero_iff, hsum]
+      exact ⟨_, _, _, ⟨⟨rfl, rfl⟩, rfl⟩, by simp [hsum]⟩
+    · cases e with
+      | nil => exact absurd rfl he
+      | invalidVarint | unexpectedEOF | overflow | other w =>
+        cases hmm : decodeZigZag64 (p.drop off.toNat) with
+        | ok r => exact absurd hmm (hm r)
+        | err => simp [elSint64, nz, hmm]; exact ⟨_, _, _, ⟨⟨rfl, rfl⟩, rfl⟩, by simp⟩
+        | panic =>
+          exfalso
+          unfold decodeZigZag64 at hmm
+          cases hv : decodeVarint (p.drop off.toNat) with
+          | ok r => obtain ⟨a, b⟩ := r; rw [hv] at hmm; simp at hmm; split at hmm <;> simp at hmm
+          | err => rw [hv] at hmm; simp at hmm
+          | panic => exact absurd hv (decodeVarint_ok _).1
+
+theorem call_zigzag32 (fuel : Nat) (hf : 11 ≤ fuel) (q : Bytes) (hq : q.length < 2 ^ 63) :
+    ∃ v n e c, DecodeZigZag32 fuel q = .ret (v, n, e) c ∧
+      ((e = .nil ∧ decodeZigZag32 q = .ok (v.toInt, n.toNat) ∧ 0 < n.toNat ∧ n.toNat ≤ q.length) ∨
+       (e ≠ .nil ∧ ∀ r, decodeZigZag32 q ≠ .ok r)) := by
+  have h := DecodeZigZag32_eq fuel hf q hq
+  have hnp : decodeZigZag32 q ≠ .panic := by
+    unfold decodeZigZag32
+    cases hm : decodeVarint q with
+    | ok r => obtain ⟨a, b⟩ := r; simp; split <;> simp
+    | err => simp
+    | panic => exact absurd hm (decodeVarint_ok _).1
+  have hbound : ∀ x k, decodeZigZag32 q = .ok (x, k) → 0 < k ∧ k ≤ q.length := by
+    intro x k hk
+    unfold decodeZigZag32 at hk
+    cases hm : decodeVarint q with
+    | ok r =>
+      obtain ⟨a, b⟩ := r
+      rw [hm] at hk; simp at hk
+      split at hk
+      · simp at hk
+      · simp at hk; obtain ⟨_, hb⟩ := hk; subst hb
+        exact ⟨decodeVarint_pos hm, (decodeVarint_ok q).2 _ _ hm⟩
+    | err => rw [hm] at hk; simp at hk
+    | panic => rw [hm] at hk; simp at hk
+  cases hd : DecodeZigZag32 fuel q with
+  | ret r c =>
+    obtain ⟨v, n, e⟩ := r
+    refine ⟨v, n, e, c, rfl, ?_⟩
+    rw [hd] at h
+    cases e with
+    | nil =>
+      left
+      simp only [toResZ32] at h
+      cases hm : decodeZigZag32 q with
+      | ok r => rw [hm] at h; simp only [Res.ok.injEq] at h; subst h; exact ⟨rfl, rfl, hbound _ _ hm⟩
+      | err => rw [hm] at h; simp at h
+      | panic => exact absurd hm hnp
+    | invalidVarint | unexpectedEOF | overflow | other w =>
+      right
+      simp only [toResZ32] at h
+      refine ⟨by simp, ?_⟩
+      intro r hr; rw [hr] at h; simp at h
+  | next s => rw [hd] at h; simp only [toResZ32] at h; cases hm : decodeZigZag32 q <;> rw [hm] at h <;> simp at h
+  | panic => rw [hd] at h; simp only [toResZ32] at h; cases hm : decodeZigZag32 q <;> rw [hm] at h <;> simp at h
+  | diverge => rw [hd] at h; simp only [toResZ32] at h; cases hm : decodeZigZag32 q <;> rw [hm] at h <;> simp at h
+
+/-- **`(*Decoder).DecodeSInt32` of the source refines `Dec.step .sint32`** -/
+theorem DecodeSInt32_refines (fuel : Nat) (hf : 11 ≤ fuel) (p : Bytes) (off mode ks ke : BitVec 64) (fast : Bool)
+    (hp : p.length < 2 ^ 63) (hoff : off.toNat ≤ p.length) :
+    ∃ v e s, Decoder_DecodeSInt32 fuel p off mode ks ke = .ret (v, e) s ∧
+      s.d_p = p ∧ s.d_mode = mode ∧ s.d_keyStart = ks ∧ s.d_keyEnd = ke ∧
+      (match ((decOf p off ks ke fast).step .sint32) with
+       | (d', .ok (.int x), _) => e = .nil ∧ v.toInt = x ∧ s.d_offset.toNat = d'.off
+       | (_, .err, _) => e ≠ .nil ∧ s.d_offset = off
+       | _ => False) := by
+  unfold Decoder_DecodeSInt32 Decoder_DecodeSInt32.body
+  simp only [Go.seq, Go.skip, eof_test p off hp hoff, Dec.step, withAlloc, Dec.scalar, decOf, Dec.len, sliceFrom]
+  by_cases heof : p.length ≤ off.toNat
+  · simp [heof]
+    exact ⟨_, _, _, ⟨⟨rfl, rfl⟩, rfl⟩, by simp⟩
+  · obtain ⟨v, n, e, c, hd, hcase⟩ := call_zigzag32 fuel hf (p.drop off.toNat) (drop_len p _ hp)
+    simp only [heof, decide_false, Bool.false_eq_true, if_false, hoff, if_true, hd, ge_iff_le]
+    rcases hcase with ⟨he, hm, hpos, hle⟩ | ⟨he, hm⟩
+    · subst he
+      have hn0 : ¬ n.toNat = 0 := by omega
+      have hlen : (p.drop off.toNat).length = p.length - off.toNat := by simp
+      have hsum : (off + n).toNat = off.toNat + n.toNat := add_toNat off n (by omega)
+      simp [elSint32, nz, hm, hn0, n_zero_iff, hsum]
+      exact ⟨_, _, _, ⟨⟨rfl, rfl⟩, rfl⟩, by simp [hsum]⟩
+    · cases e with
+      | nil => exact absurd rfl he
+      | invalidVarint | unexpectedEOF | overflow | other w =>
+        cases hmm : decodeZigZag32 (p.drop off.toNat) with
+        | ok r => exact absurd hmm (hm r)
+        | err => simp [elSint32, nz, hmm]; exact ⟨_, _, _, ⟨⟨rfl, rfl⟩, rfl⟩, by simp⟩
+        | panic =>
+          exfalso
+          unfold decodeZigZag32 at hmm
+          cases hv : decodeVarint (p.drop off.toNat) with
+          | ok r => obtain ⟨a, b⟩ := r; rw [hv] at hmm; simp at hmm; split at hmm <;> simp at hmm
+          | err => rw [hv] at hmm; simp at hmm
+          | panic => exact absurd hv (decodeVarint_ok _).1
+
+theorem fromLE_lt (l : Bytes) : fromLE l < 256 ^ l.length := by
+  induction l with
+  | nil => simp [fromLE]
+  | cons b bs ih =>
+    have hb := b.toNat_lt
+    simp only [fromLE, List.length_cons, Nat.pow_succ]
+    generalize 256 ^ bs.length = k at ih ⊢
+    omega
+
+theorem fromLE4_lt (a b c d : UInt8) : fromLE [a, b, c, d] < 2 ^ 32 := by
+  have := fromLE_lt [a, b, c, d]; simp only [List.length_cons, List.length_nil] at this; omega
+
+theorem fromLE8_lt (a b c d e f g h : UInt8) : fromLE [a, b, c, d, e, f, g, h] < 2 ^ 64 := by
+  have := fromLE_lt [a, b, c, d, e, f, g, h]; simp only [List.length_cons, List.length_nil] at this; omega
+
+theorem call_fixed32 (fuel : Nat) (q : Bytes) (hq : q.length < 2 ^ 63) :
+    ∃ v n e c, DecodeFixed32 fuel q = .ret (v, n, e) c ∧
+      ((e = .nil ∧ decodeFixed32 q = .ok (v.toNat, n.toNat) ∧ n.toNat = 4 ∧ 4 ≤ q.length) ∨
+       (e ≠ .nil ∧ decodeFixed32 q = .err)) := by
+  by_cases hs : q.length < 4
+  · obtain ⟨c, hc⟩ := DecodeFixed32_short fuel q hs
+    exact ⟨_, _, _, c, hc, Or.inr ⟨by simp, by simp [decodeFixed32, hs]⟩⟩
+  · match q, hs, hq with
+    | a :: b :: c :: d :: rest, hs, hq =>
+      obtain ⟨st, hc⟩ := DecodeFixed32_ok fuel a b c d rest hq
+      refine ⟨_, _, _, st, hc, Or.inl ⟨rfl, ?_, by simp, by simp⟩⟩
+      have := fromLE4_lt a b c d
+      simp [decodeFixed32, Nat.mod_eq_of_lt this]
+    | [], hs, _ => simp at hs
+    | [_], hs, _ => simp at hs
+    | [_, _], hs, _ => simp at hs
+    | [_, _, _], hs, _ => simp at hs
+
+theorem call_fixed64 (fuel : Nat) (q : Bytes) (hq : q.length < 2 ^ 63) :
+    ∃ v n e c, DecodeFixed64 fuel q = .ret (v, n, e) c ∧
+      ((e = .nil ∧ decodeFixed64 q = .ok (v.toNat, n.toNat) ∧ n.toNat = 8 ∧ 8 ≤ q.length) ∨
+       (e ≠ .nil ∧ decodeFixed64 q = .err)) := by
+  by_cases hs : q.length < 8
+  · obtain ⟨c, hc⟩ := DecodeFixed64_short fuel q hs
+    exact ⟨_, _, _, c, hc, Or.inr ⟨by simp, by simp [decodeFixed64, hs]⟩⟩
+  · match q, hs, hq with
+    | a :: b :: c :: d :: e :: f :: g :: h :: rest, hs, hq =>
+      obtain ⟨st, hc⟩ := DecodeFixed64_ok fuel a b c d e f g h rest hq
+      refine ⟨_, _, _, st, hc, Or.inl ⟨rfl, ?_, by simp, by simp⟩⟩
+      have := fromLE8_lt a b c d e f g h
+      simp [decodeFixed64, Nat.mod_eq_of_lt this]
+    | [], hs, _ => simp at hs
+    | [_], hs, _ => simp at hs
+    | [_, _], hs, _ => simp at hs
+    | [_, _, _], hs, _ => simp at hs
+    | [_, _, _, _], hs, _ => simp at hs
+    | [_, _, _, _, _], hs, _ => simp at hs
+    | [_, _, _, _, _, _], hs, _ => simp at hs
+    | [_, _, _, _, _, _, _], hs, _ => simp at hs
+
+/-- **`(*Decoder).DecodeFixed32` of the source refines `Dec.step .fixed32`** -/
+theorem DecodeFixed32_refines (fuel : Nat) (p : Bytes) (off mode ks ke : BitVec 64) (fast : Bool)
+    (hp : p.length < 2 ^ 63) (hoff : off.toNat ≤ p.length) :
+    ∃ v e s, Decoder_DecodeFixed32 fuel p off mode ks ke = .ret (v, e) s ∧
+      s.d_p = p ∧ s.d_mode = mode ∧ s.d_keyStart = ks ∧ s.d_keyEnd = ke ∧
+      (match ((decOf p off ks ke fast).step .fixed32) with
+       | (d', .ok (.nat x), _) => e = .nil ∧ v.toNat = x ∧ s.d_offset.toNat = d'.off
+       | (_, .err, _) => e ≠ .nil ∧ s.d_offset = off
+       | _ => False) := by
+  unfold Decoder_DecodeFixed32 Decoder_DecodeFixed32.body
+  simp only [Go.seq, Go.skip, eof_test p off hp hoff, Dec.step, withAlloc, Dec.scalar, decOf, Dec.len, sliceFrom]
+  by_cases heof : p.length ≤ off.toNat
+  · simp [heof]
+    exact ⟨_, _, _, ⟨⟨rfl, rfl⟩, rfl⟩, by simp⟩
+  · obtain ⟨v, n, e, c, hd, hcase⟩ := call_fixed32 fuel (p.drop off.toNat) (drop_len p _ hp)
+    simp only [heof, decide_false, Bool.false_eq_true, if_false, hoff, if_true, hd, ge_iff_le]
+    rcases hcase with ⟨he, hm, hn4, hle⟩ | ⟨he, hm⟩
+    · subst he
+      have hn0 : ¬ n.toNat = 0 := by omega
+      have hlen : (p.drop off.toNat).length = p.length - off.toNat := by simp
+      have hsum : (off + n).toNat = off.toNat + n.toNat := add_toNat off n (by omega)
+      simp [elFixed32, nz, hm, hn0, n_zero_iff, hsum]
+      exact ⟨_, _, _, ⟨⟨rfl, rfl⟩, rfl⟩, by simp [hsum]⟩
+    · cases e with
+      | nil => exact absurd rfl he
+      | invalidVarint | unexpectedEOF | overflow | other w =>
+        simp [elFixed32, nz, hm]; exact ⟨_, _, _, ⟨⟨rfl, rfl⟩, rfl⟩, by simp⟩
+
+/-- **`(*Decoder).DecodeFixed64` of the source refines `Dec.step .fixed64`** -/
+theorem DecodeFixed64_refines (fuel : Nat) (p : Bytes) (off mode ks ke : BitVec 64) (fast : Bool)
+    (hp : p.length < 2 ^ 63) (hoff : off.toNat ≤ p.length) :
+    ∃ v e s, Decoder_DecodeFixed64 fuel p off mode ks ke = .ret (v, e) s ∧
+      s.d_p = p ∧ s.d_mode = mode ∧ s.d_keyStart = ks ∧ s.d_keyEnd = ke ∧
+      (match ((decOf p off ks ke fast).step .fixed64) with
+       | (d', .ok (.nat x), _) => e = .nil ∧ v.toNat = x ∧ s.d_offset.toNat = d'.off
+       | (_, .err, _) => e ≠ .nil ∧ s.d_offset = off
+       | _ => False) := by
+  unfold Decoder_DecodeFixed64 Decoder_DecodeFixed64.body
+  simp only [Go.seq, Go.skip, eof_test p off hp hoff, Dec.step, withAlloc, Dec.scalar, decOf, Dec.len, sliceFrom]
+  by_cases heof : p.length ≤ off.toNat
+  · simp [heof]
+    exact ⟨_, _, _, ⟨⟨rfl, rfl⟩, rfl⟩, by simp⟩
+  · obtain ⟨v, n, e, c, hd, hcase⟩ := call_fixed64 fuel (p.drop off.toNat) (drop_len p _ hp)
+    simp only [heof, decide_false, Bool.false_eq_true, if_false, hoff, if_true, hd, ge_iff_le]
+    rcases hcase with ⟨he, hm, hn4, hle⟩ | ⟨he, hm⟩
+    · subst he
+      have hn0 : ¬ n.toNat = 0 := by omega
+      have hlen : (p.drop off.toNat).length = p.length - off.toNat := by simp
+      have hsum : (off + n).toNat = off.toNat + n.toNat := add_toNat off n (by omega)
+      simp [elFixed64, nz, hm, hn0, n_zero_iff, hsum]
+      exact ⟨_, _, _, ⟨⟨rfl, rfl⟩, rfl⟩, by simp [hsum]⟩
+    · cases e with
+      | nil => exact absurd rfl he
+      | invalidVarint | unexpectedEOF | overflow | other w =>
+        simp [elFixed64, nz, hm]; exact ⟨_, _, _, ⟨⟨rfl, rfl⟩, rfl⟩, by simp⟩
+
+/-! ### `DecodeInt32`: the range test on `int64(v)` and the truncation to 32 bits -/
+
+theorem slt_max32 (v : BitVec 64) : BitVec.slt 2147483647#64 v = decide (2147483647 < v.toInt) := by
+  simp [BitVec.slt]
+
+theorem slt_min32 (v : BitVec 64) : BitVec.slt v (BitVec.ofInt 64 (-2147483648)) = decide (v.toInt < -2147483648) := by
+  have : (BitVec.ofInt 64 (-2147483648)).toInt = -2147483648 := by decide
+  simp [BitVec.slt, this]
+
+theorem slt_min32' (v : BitVec 64) : BitVec.slt v 18446744071562067968#64 = decide (v.toInt < -2147483648) := by
+  have : (18446744071562067968#64).toInt = -2147483648 := by decide
+  simp [BitVec.slt, this]
+
+theorem setWidth32_toInt (v : BitVec 64) (h1 : ¬ 2147483647 < v.toInt) (h2 : ¬ v.toInt < -2147483648) :
+    (BitVec.setWidth 32 v).toInt = v.toInt := by
+  have hv := v.isLt
+  rw [BitVec.toInt_eq_toNat_cond] at h1 h2 ⊢
+  rw [BitVec.toInt_eq_toNat_cond]
+  simp only [BitVec.toNat_setWidth]
+  by_cases hc : 2 * v.toNat < 2 ^ 64
+  · simp only [hc, if_true] at h1 h2 ⊢
+    have hm : v.toNat % 2 ^ 32 = v.toNat := Nat.mod_eq_of_lt (by omega)
+    rw [hm]
+    have : 2 * v.toNat < 2 ^ 32 := by omega
+    simp [this]
+  · simp only [hc, if_false] at h1 h2 ⊢
+    have hm : v.toNat % 2 ^ 32 = v.toNat - (2 ^ 64 - 2 ^ 32) := by omega
+    rw [hm]
+    have : ¬ 2 * (v.toNat - (2 ^ 64 - 2 ^ 32)) < 2 ^ 32 := by omega
+    simp only [this, if_false]
+    omega
+
+/-- **`(*Decoder).DecodeInt32` of the source refines `Dec.step .int32`** (a value outside the int32 range is an error) -/
+theorem DecodeInt32_refines (fuel : Nat) (hf : 11 ≤ fuel) (p : Bytes) (off mode ks ke : BitVec 64) (fast : Bool)
+    (hp : p.length < 2 ^ 63) (hoff : off.toNat ≤ p.length) :
+    ∃ v e s, Decoder_DecodeInt32 fuel p off mode ks ke = .ret (v, e) s ∧
+      s.d_p = p ∧ s.d_mode = mode ∧ s.d_keyStart = ks ∧ s.d_keyEnd = ke ∧
+      (match ((decOf p off ks ke fast).step .int32) with
+       | (d', .ok (.int x), _) => e = .nil ∧ v.toInt = x ∧ s.d_offset.toNat = d'.off
+       | (_, .err, _) => e ≠ .nil ∧ s.d_offset = off
+       | _ => False) := by
+  unfold Decoder_DecodeInt32 Decoder_DecodeInt32.body
+  simp only [Go.seq, Go.skip, eof_test p off hp hoff, Dec.step, withAlloc, Dec.scalar, decOf, Dec.len, sliceFrom]
+  by_cases heof : p.length ≤ off.toNat
+  · simp [heof]
+    exact ⟨_, _, _, ⟨⟨rfl, rfl⟩, rfl⟩, by simp⟩
+  · obtain ⟨v, n, e, c, hd, hcase⟩ := call_varint fuel hf (p.drop off.toNat) (drop_len p _ hp)
+    simp only [heof, decide_false, Bool.false_eq_true, if_false, hoff, if_true, hd, ge_iff_le]
+    rcases hcase with ⟨he, hm, hpos, hle⟩ | ⟨he, hm⟩
+    · subst he
+      have hn0 : ¬ n.toNat = 0 := by omega
+      have hlen : (p.drop off.toNat).length = p.length - off.toNat := by simp
+      have hsum : (off + n).toNat = off.toNat + n.toNat := add_toNat off n (by omega)
+      by_cases hbig : 2147483647 < v.toInt ∨ v.toInt < -2147483648
+      · have hb : (decide (2147483647 < v.toInt) || decide (v.toInt < -2147483648)) = true := by
+          rcases hbig with h | h <;> simp [h]
+        simp [elInt32, elVarint, nz, hm, hn0, n_zero_iff, hsum, slt_max32, slt_min32, slt_min32', toI64_toNat, hbig, hb]
+        exact ⟨_, _, _, ⟨⟨rfl, rfl⟩, rfl⟩, by simp⟩
+      · have h1 : ¬ 2147483647 < v.toInt := fun h => hbig (Or.inl h)
+        have h2 : ¬ v.toInt < -2147483648 := fun h => hbig (Or.inr h)
+        simp [elInt32, elVarint, nz, hm, hn0, n_zero_iff, hsum, slt_max32, slt_min32, slt_min32', toI64_toNat, h1, h2]
+        exact ⟨_, _, _, ⟨⟨rfl, rfl⟩, rfl⟩, by simp [hsum, setWidth32_toInt v h1 h2]⟩
+    · cases e with
+      | nil => exact absurd rfl he
+      | invalidVarint | unexpectedEOF | overflow | other w =>
+        cases hmm : decodeVarint (p.drop off.toNat) with
+        | ok r => exact absurd hmm (hm r)
+        | err => simp [elInt32, elVarint, nz, hmm]; exact ⟨_, _, _, ⟨⟨rfl, rfl⟩, rfl⟩, by simp⟩
+        | panic => exact absurd hmm (decodeVarint_ok _).1
+
 end Csproto.Bridge.DecoderFuncs
